@@ -120,16 +120,25 @@ func runC19(seed int64, count int, replay string) {
 		ch := netty.NewAsyncWriteChannel(16, false)(int64(round), context.Background(), pl, tr, dexec)
 		netty.NvAttach(pl, ch)
 		sizes := [][]int{{3000, 500}, {500, 3000, 100}, {1500, 1500, 70000, 10}, {100, 100}}[round]
-		for _, n := range sizes {
-			ch.Write1(bytes.Repeat([]byte{byte(n)}, n))
-		}
-		dexec.runAll() // one batch: Writev, then the batch is recycled
+		short, dup := 0, 0
+		func() {
+			// the channel slices the buffer it is given to the payload's length: a pool that hands out less than
+			// was asked for makes it panic, which is the capacity clause failing at the caller
+			defer func() {
+				if r := recover(); r != nil {
+					short++
+				}
+			}()
+			for _, n := range sizes {
+				ch.Write1(bytes.Repeat([]byte{byte(n)}, n))
+			}
+			dexec.runAll() // one batch: Writev, then the batch is recycled
+		}()
 		deadline := time.Now().Add(2 * time.Second)
 		for (netty.NvQueueLen(ch) > 0 || netty.NvSenderRunning(ch)) && time.Now().Before(deadline) {
 			time.Sleep(50 * time.Microsecond)
 		}
 		var got []*[]byte
-		short, dup := 0, 0
 		seen := map[unsafe.Pointer]bool{}
 		for k := 0; k < 3; k++ {
 			for _, n := range sizes {
@@ -155,8 +164,12 @@ func runC19(seed int64, count int, replay string) {
 	}
 	// a holder that keeps the slice and not the pointer it was given (`buf := *pool.Get(n)`, as the channel does), with
 	// garbage collections in between: the buffer stays its holder's until it is Put
-	{
-		emit("#case gc-while-held")
+	for _, procs := range []int{1, 0, 1} { // one P: the finalizer goroutine and the next Get share sync.Pool's per-P cache
+		emit("#case gc-while-held-procs%d", procs)
+		prev := 0
+		if procs > 0 {
+			prev = runtime.GOMAXPROCS(procs)
+		}
 		p := pbytes.New(65536)
 		var held [][]byte
 		double := 0
@@ -174,7 +187,7 @@ func runC19(seed int64, count int, replay string) {
 			held = append(held, b)
 			runtime.GC()
 			runtime.GC()
-			time.Sleep(2 * time.Millisecond) // finalizers, if any, run now
+			time.Sleep(5 * time.Millisecond) // finalizers, if any, run now
 		}
 		for k, b := range held { // nobody else wrote into what we hold
 			for _, x := range b[:cap(b)] {
@@ -188,7 +201,26 @@ func runC19(seed int64, count int, replay string) {
 			b := held[i] // a variable of its own, as `buf := buf[:0]; pool.Put(&buf)` in the channel's sender
 			p.Put(&b)
 		}
-		emit("C19 conc 1 %d %d 0", len(held), double)
+		// returned once, then a collection: each buffer is in the pool at most once
+		runtime.GC()
+		runtime.GC()
+		time.Sleep(5 * time.Millisecond)
+		again := map[unsafe.Pointer]bool{}
+		var keep [][]byte
+		for k := 0; k < 2*len(held); k++ {
+			b := *p.Get(1000 + k%6)
+			ptr := unsafe.Pointer(unsafe.SliceData(b[:cap(b)]))
+			if again[ptr] {
+				double++
+			}
+			again[ptr] = true
+			keep = append(keep, b)
+		}
+		runtime.KeepAlive(keep)
+		emit("C19 conc 1 %d %d 0", 3*len(held), double)
+		if procs > 0 {
+			runtime.GOMAXPROCS(prev)
+		}
 	}
 	// many buffers of one class parked in the pool at the same time, then taken out again and held together
 	for _, n := range []int{3, 9, 12, 20} {
